@@ -42,6 +42,7 @@ RULE = ("rounds: 1-40 cards, 1-5 contests, random styles (cards listing nothing,
         "size vector; cs/assign/prep/data/proved as described in the module docstring; non-trivial = at least two "
         "contests with different positive sizes sharing a card, or an error branch; distinct = distinct canonical input")
 EXHAUSTIVE = {"quick": False, "thorough": False}
+RULE += "; option stream (n/40 more cases, own generator, OPTIONS_AUDIT.md): prep_polling_sample, consistent_sampling by keyword, sample numbers that are floats k/2^j with a fractional part (cs and rounds)"
 
 CIDS = ["A", "B", "C", "D", "E"]
 
